@@ -389,3 +389,32 @@ PROPS["C02"] = dict(
                "inconclusive rules (algebraic error, rounding floor, resolution) are reported in the evidence.",
     assumptions=["FMG + F-cycles to rel 1e-11 leave an algebraic error >= 3 orders below the discretisation error (checked per case)"],
 )
+
+PROPS["C20"] = dict(
+    harness="c20_options", flavour="asan", extra_targets={"asan": ["gmgpolar_cli"]},
+    quick=dict(workers=8, cases=1200, min_nontrivial=300),
+    thorough=dict(workers=16, cases=60000, min_nontrivial=5000, budget_s=3300),
+    rule="Two parts. api (70%): the full setter cross product in-process under ASan/UBSan/assert: every enum including "
+         "out-of-range integers cast into the enum type, tolerances enabled/disabled, maxIterations 0..5 or 150, smoothing "
+         "steps 0..3, maxLevels -1..7, threads 1/2/5, threadReductionFactor 1..0.01, smallest grids (nr_exp 1..4, ntheta_exp "
+         "-1/2/3/4, divideBy2 0..1), anisotropy with the refinement radius anywhere (also 0, negative, beyond Rmax), take "
+         "with/without caches, Culham and Refined problems, grids loaded from files (coarsenable or not). Each record is run "
+         "twice with the solver object placement-constructed in storage pre-filled with two different byte patterns and the "
+         "stack below the calls scribbled with them: the outcome must be a std::exception both times or a completed run "
+         "both times; take-without-caches and non-coarsenable grids must be rejected; 0<=iterations<=maxIterations (== "
+         "with both tolerances disabled); iterations, mean reduction factor, exact errors and solution bit-identical "
+         "between the two patterns (uninitialised-data detector); factor finite and equal to (r_final/r_0)^(1/its) with the "
+         "last norm recomputed independently when stopped early; finite solution inside C01's domain. cli (30%): argv "
+         "vectors from a grammar over all 32 registered options (valid, out-of-range, non-numeric, missing value, unknown "
+         "option, --help) run as child processes of the ASan-built gmgpolar: exit 0, or a normal non-zero exit with a "
+         "diagnostic on stderr; a signal (uncaught exception, assert, SEGV) or sanitizer report is a violation. "
+         "Non-trivial: every api case, every cli case with arguments. Distinct: hash of the option record / argv.",
+    technique="property-based testing (rapidcheck) under ASan/UBSan with a differential uninitialised-memory detector (two memory patterns) and a grammar-based command-line fuzzer",
+    level_text="Generated option records and command lines exercise the public API and the shipped driver under sanitizers; "
+               "the clean-rejection-or-clean-run contract and the well-definedness of every reported statistic are checked "
+               "per case. Exploration.",
+    level_note="Trusted: ASan/UBSan/assert for memory errors; the two-pattern differential for uninitialised reads (MSan is not "
+               "usable here: no instrumented libstdc++/libomp); indep.h for the recomputed norm.",
+    assumptions=["exactError*() is only called after at least one pass of the iteration loop (documented use)",
+                 "an out-of-range enum value passed through a cast may either be rejected or run (no UB); rejection is demanded at the command line"],
+)
